@@ -304,6 +304,55 @@ def run_mute(params, obs):
     return problems
 
 
+def run_silent_after_reply(role, idle, ka, pending, obs):
+    ''' Both SESS_TERM are exchanged, something is still pending (the final XFER_ACK of the endpoint's bundle is withheld, or the
+    peer's own transfer stops half way) and then the peer says nothing more while keeping its socket open: the endpoint ends by
+    closing within its idle time (counted from the last thing it heard). '''
+    from vf.world.sim import Sim
+    from vf import tcpcl_harness as th
+    sim = Sim(seed=0, policy='eager')
+    sock_a, sock_b = sim.net.tcp_pair()
+    cfg = th.make_config('dtn://under-test/', idle_time=idle, keepalive_time=ka, segment_size_tx_initial=1000)
+    if role == 'passive':
+        end = th.Endpoint(sim, 'E', cfg, sock_b, passive=True, peer_addr=('10.0.0.1', 40001))
+        peer_sock, end_sock = sock_a, sock_b
+    else:
+        end = th.Endpoint(sim, 'E', cfg, sock_a, passive=False, peer_addr=('10.0.0.2', 4556))
+        peer_sock, end_sock = sock_b, sock_a
+    end.start()
+    sim.settle(20000)
+
+    def write(data):
+        peer_sock.tx.write(data)
+        sim.settle(50000)
+
+    write(tw.encode(dict(type='contact', flags=0)))
+    write(tw.encode(dict(type='SESS_INIT', keepalive=ka, segment_mru=2 ** 20, transfer_mru=2 ** 30, nodeid=b'dtn://peer/', ext=[])))
+    if pending == 'final-ack':
+        end.call('send_bundle_data', dbus.ByteArray(bytes(range(200))))
+        sim.settle(50000)
+    else:
+        write(tw.encode(dict(type='XFER_SEGMENT', flags=tw.FLAG_START, transfer_id=5, ext=[tw.transfer_length_ext(100)], data=b'x' * 40)))
+    sim.advance(300 * MS)
+    end.call('terminate', dbus.Byte(0))
+    sim.settle(50000)
+    write(tw.encode(dict(type='SESS_TERM', flags=1, reason=0)))
+    t_last = sim.world.now_ns
+    obs['runs'] += 1
+    what = '%s endpoint, idle time %d s, keepalive %d s, both SESS_TERM exchanged with %s still pending, then a silent peer' % (
+        role, idle, ka, {'final-ack': 'the final XFER_ACK of its bundle', 'half-transfer': 'half of an incoming transfer'}[pending])
+    if end_sock.closed:
+        return ['%s: closed at once although the peer may still acknowledge / finish' % what]
+    sim.advance((idle * 1000 + 50) * MS)
+    errs = sim.world.callback_errors
+    if errs:
+        return ['%s: callback %s raised %s' % (what, errs[0].source, errs[0].exc_type)]
+    if not end_sock.closed:
+        return ['%s: still open %.3f s after the last thing it heard' % (what, (sim.world.now_ns - t_last) / 1e9)]
+    obs['mute_peer_closures'] += 1
+    return []
+
+
 def run_announced(role, seg_mru, xfer_mru, keepalive, obs):
     ''' A scripted peer announces arbitrary values; get_session_parameters() must report them as announced. '''
     from vf.props import c17
@@ -394,12 +443,16 @@ def cases(tier, seed):
             out.append(dict(id='t-%d' % idx, kind='timing', ka_a=ka_a, ka_b=ka_b, idle=idle, seed=seed))
             idx += 1
     for idle in (1, 3, 10):
-        for ka in (0, 30):
+        for ka in (0, 1, 30):
             for before in (0, 500):
                 for bundle in (0, 40):
                     out.append(dict(id='mute-%d-%d-%d-%d' % (idle, ka, before, bundle), kind='mute', idle=idle, ka=ka, before_ms=before, bundle=bundle))
-            out.append(dict(id='mute-idle-%d-%d' % (idle, ka), kind='mute', idle=idle, ka=ka, before_ms=0, bundle=0, how='idle'))
+            if ka == 0 or ka > idle:
+                # (with a keepalive interval below the idle time the endpoint's own KEEPALIVEs are traffic: an established
+                # session is then never idle, as the statement has it)
+                out.append(dict(id='mute-idle-%d-%d' % (idle, ka), kind='mute', idle=idle, ka=ka, before_ms=0, bundle=0, how='idle'))
     out.append(dict(id='announced', kind='announced'))
+    out.append(dict(id='silent-after-reply', kind='silent'))
     rng = random.Random(seed)
     for idx in range(120 if thorough else 16):
         out.append(dict(id='adapt-%d' % idx, kind='adaptive', seed=seed * 31 + idx,
@@ -465,6 +518,13 @@ def run_case(case):
                 for keepalive in (0, 7, 65535):
                     params = dict(role=role, seg_mru=seg_mru, xfer_mru=xfer_mru, keepalive=keepalive)
                     note(run_announced(role, seg_mru, xfer_mru, keepalive, obs), 'announced', params)
+    elif case['kind'] == 'silent':
+        for role in ('passive', 'active'):
+            for idle in (2, 5):
+                for ka in (0, 1, 30):
+                    for pending in ('final-ack', 'half-transfer'):
+                        params = dict(role=role, idle=idle, ka=ka, pending=pending)
+                        note(run_silent_after_reply(role, idle, ka, pending, obs), 'silent', params)
     elif case['kind'] == 'mute':
         params = {k: case[k] for k in ('idle', 'ka', 'before_ms', 'bundle')}
         params['how'] = case.get('how', 'request')
